@@ -112,8 +112,8 @@ def abstract_volume():
 
     def vol(self):
         cs = [jnp.asarray(getattr(self, c)) for c in COORDS]
-        if not any(isinstance(c, jax.core.Tracer) for c in cs):
-            return real(self)
+        if cs[0].ndim == 0 or not any(isinstance(c, jax.core.Tracer) for c in cs):
+            return real(self)  # the container's volume (a divisor in the rewards) and concrete calls stay real
         f = lambda *c: uf_call("Space.volume", jnp.zeros((), jnp.float32), *c)
         for _ in range(cs[0].ndim):
             f = jax.vmap(f)
@@ -260,6 +260,12 @@ def problems(env, cfg, tier):
     def req(s, a):
         return {**inv(env, s, order=False), "in_spec": E.in_spec(env, a)}
 
+    def with_abstract_volume(f):
+        def g(*args):
+            with abstract_volume():
+                return f(*args)
+        return g
+
     ORDER = ("sorted_ems_indexes", "action_mask")  # frame fields whose proof needs the volume order: problem `order` below
 
     def frame_fields(s, s2):
@@ -321,7 +327,8 @@ def problems(env, cfg, tier):
         gain = jnp.sum(jnp.where(ok & chosen, item_volumes(s), 0.0)) / container_volume(s)
         return utilisation(s2) == utilisation(s) + gain
 
-    step = dict(title=f"BinPack.step@{cfg}", args=(state, a), requires=req, ensures=ens, workers=6, timeout=300,
+    # (the volumes of the EMS buffer only matter through their ORDER here: contract boundary on Space.volume, see `order`)
+    step = dict(title=f"BinPack.step@{cfg}", args=(state, a), requires=req, ensures=with_abstract_volume(ens), workers=6, timeout=300,
                 props=("C01", "C04", "C05", "C06", "C08", "C11", "C12"),
                 targets=[T.step, T._make_observation_and_extras, T._get_set_of_largest_ems, T._get_action_mask, T._normalize_ems_and_items,
                          T._pack_item, T._update_ems, type(env.reward_fn).__call__])
@@ -483,7 +490,7 @@ def problems(env, cfg, tier):
         out.update(K.spec_bounds(env.observation_spec, o, "C01.reset_obs_bounds"))
         return out
 
-    reset = dict(title=f"BinPack.reset@{cfg}", args=(state, jax.random.PRNGKey(0)), requires=gen_post, ensures=reset_ens, workers=4, fmul_uf=True,
+    reset = dict(title=f"BinPack.reset@{cfg}", args=(state, jax.random.PRNGKey(0)), requires=gen_post, ensures=reset_ens, workers=4,
                  targets=[T.reset, T._make_observation_and_extras],
                  note="generator replaced by its post-condition (contract boundary; the generator's own contract is C10)")
     return [step, order, order_frame, geo, space, mask_fn, reset]
